@@ -753,6 +753,22 @@ class Printer:
                 self.fire('iter:compare-with-end')
                 return '(%s %s %s.size)' % (nm_, '!=' if opn == 'operator!=' else '==', v_)
             self.brk('iterator compared with something else than end() of its own vector', n)
+        if opn in ('operator!=', 'operator==') and len(I) == 3:
+            # find(v, x) == v.end()  (no iterator local): the position compared with the size
+            for a_, b_ in ((I[1], I[2]), (I[2], I[1])):
+                c_ = self.iter_strip(a_)
+                if c_.get('kind') == 'CallExpr' and c_.get('inner'):
+                    f_ = self.callee_decl(c_['inner'][0])
+                    ar_ = [x for x in c_['inner'][1:] if x.get('kind') != 'CXXDefaultArgExpr']
+                    if (f_.get('referencedDecl', {}).get('name') or f_.get('name')) == 'find' and len(ar_) == 2 and self.is_vec_expr(ar_[0]):
+                        vtxt = self.e(ar_[0])
+                        if self.iter_bound(b_, 'end') == vtxt:
+                            if not self.unit.get('unwind'):
+                                self.brk('find() over a vector needs a bounded unit (the search loop is executed)', n)
+                            fn = '%s_find' % self.ctype_of(ar_[0])
+                            self.called[fn] += 1
+                            self.fire('iter:find-compared-with-end')
+                            return '(%s(&%s, %s) %s %s.size)' % (fn, vtxt, self.e(self.skip(ar_[1])), '!=' if opn == 'operator!=' else '==', vtxt)
         if opn == 'operator*' and len(I) == 2 and self.iter_local(I[1]):
             nm_, v_ = self.iter_local(I[1])
             self.fire('iter:deref')
